@@ -155,6 +155,21 @@ theorem shr_exact (a b : IntV) (hn : -(2^63 : Int) < b.den ∧ b.den < 2^63) :
     · rw [if_neg (show ¬ (0 ≤ -b.den) by omega), if_pos hp, Int.neg_neg]
     · rw [if_pos (show 0 ≤ -b.den by omega), if_neg hp]
 
+/-- Full-strength statement for right shifts (every non-negative count, of any magnitude). It does
+**not** hold of the code: a count that does not fit a machine word is answered with 0 without
+looking at the receiver's sign (`SmallInt.RightBitshiftBigInt`, `BigInt.RightBitshiftBigInt`:
+`return SmallInt(0)`), and the most negative `SmallInt` count negates to itself. -/
+def ShrExactAllCounts : Prop :=
+  ∀ a b : IntV, 0 ≤ b.den → ∃ v, binVal .shr a b = .val v ∧ v.den = a.den >>> b.den.toNat
+
+/-- kernel-checked witness: `-1 >> 2**64` is 0 in the model (which mirrors the code), the exact value is -1 -/
+theorem huge_count_witness : ¬ ShrExactAllCounts := by
+  intro h
+  obtain ⟨v, hv, hd⟩ := h (.small (-1#64)) (.big (2^64)) (by decide)
+  have : binVal .shr (.small (-1#64)) (.big (2^64)) = .val (.small 0#64) := by decide
+  rw [this] at hv; cases hv
+  revert hd; decide
+
 /-- the right shift is the floor of the quotient (rounds toward negative infinity) -/
 theorem shr_is_floor (x : Int) (n : Nat) : x >>> n = x / (2 ^ n : Int) := by
   rw [Int.shiftRight_eq_div_pow]; norm_cast
